@@ -199,6 +199,15 @@ def block_facts(text):
     return broken, nchg
 
 
+def keep_build_alive(exe):
+    """vlib prunes the build trees of other source hashes down to the 10 most recently used whenever somebody builds: refresh
+    the time stamp of ours during a long run"""
+    try:
+        os.utime(os.path.dirname(os.path.dirname(exe)))
+    except OSError:
+        pass
+
+
 def omp_env(threads, sched):
     env = dict(os.environ)
     env.update({"OMP_NUM_THREADS": str(threads), "OMP_SCHEDULE": sched, "OMP_DYNAMIC": "false", "OMP_WAIT_POLICY": "passive",
@@ -301,6 +310,7 @@ def run(res, tier, seed, replay_script=None):
     nruns = 0
     pool = 4 if tier == "quick" else 8
     for b0 in range(0, len(ids), BATCH):
+        keep_build_alive(odrv)
         bids = ids[b0:b0 + BATCH]
         blines = []
         for cid in bids:
